@@ -415,6 +415,19 @@ func (x *sInst) Check() *space.Mismatch {
 	if !eqVals(all, x.vals) {
 		return misQ("SList.All", "wrong-iterator", "full", "%s: All yields %v", ctx, all)
 	}
+	seq := x.l.All()
+	for range seq {
+	}
+	all = all[:0]
+	for v := range seq {
+		all = append(all, v)
+		if len(all) > n+2 {
+			break
+		}
+	}
+	if !eqVals(all, x.vals) {
+		return misQ("SList.All", "wrong-iterator", "second-walk", "%s: the iterator returned by All, walked a second time, yields %v", ctx, all)
+	}
 	var first []Val
 	x.l.All()(func(v Val) bool { first = append(first, v); return false })
 	if len(first) > 1 {
